@@ -216,6 +216,27 @@ func init() {
 				}
 			}
 		}
+		// method calls on receivers one to five segments deep, by value and by pointer: the method of THAT node
+		{
+			tr := c11mktree("a", 4)
+			extra := map[string]interface{}{"a": tr, "av": *tr}
+			for _, t := range [][2]string{
+				{"a.Val()", "Val:a"}, {"a.L.Val()", "Val:a.L"}, {"a.L.R.Val()", "Val:a.L.R"}, {"a.R.R.L.Val()", "Val:a.R.R.L"}, {"a.L.R.L.R.Val()", "Val:a.L.R.L.R"},
+				{`a.L.R.Pick("x")`, "a.L.R/x"}, {`a.R.R.L.Pick("y")`, "a.R.R.L/y"}, {"a.L.R.V.Val()", "Leaf:a.L.R.V"}, {"a.R.L.R.V.Val()", "Leaf:a.R.L.R.V"},
+				{"av.L.R.Val()", "Val:a.L.R"}, {"av.R.L.L.Val()", "Val:a.R.L.L"}, {"a.L.R.Name", "a.L.R"}, {"a.R.L.R.L.Name", "a.R.L.R.L"},
+			} {
+				for _, form := range []string{"[<%= X %>]", "<% let q = X %>[<%= q %>]", "[<%= for (i) in [1] { %><%= X %><% } %>]"} {
+					tm := strings.Replace(form, "X", t[0], 1)
+					o := runRenderExtra(RCase{Tmpl: tm, Binds: binds}, extra)
+					e.rep.Evaluations++
+					e.Count("deep-method-receivers")
+					e.Distinct(tm)
+					if o.Class != "OK" || o.Out != "["+template.HTMLEscapeString(t[1])+"]" {
+						e.Violate(c11key(t[0], o, strings.Trim(o.Out, "[]")), fmt.Sprintf("%s: Go's %s is %q, the template rendered %q (%s %s)", tm, t[0], t[1], o.Out, o.Class, firstLine(o.Msg)), map[string]interface{}{"tmpl": tm, "observed": o})
+					}
+				}
+			}
+		}
 		// the same selector (one node of the syntax tree) evaluated against values of different struct
 		// types within one render: loop over mixed elements, a function applied to both, a rebound variable
 		{
@@ -331,6 +352,26 @@ func init() {
 			}
 		}
 	})
+}
+
+// a self-similar type: every node spells its own path, methods by value and by pointer
+type c11tree struct {
+	Name string
+	L, R *c11tree
+	V    c11leaf
+}
+type c11leaf struct{ Name string }
+
+func (t c11tree) Val() string           { return "Val:" + t.Name }
+func (t *c11tree) Pick(s string) string { return t.Name + "/" + s }
+func (l c11leaf) Val() string           { return "Leaf:" + l.Name }
+
+func c11mktree(path string, depth int) *c11tree {
+	t := &c11tree{Name: path, V: c11leaf{path + ".V"}}
+	if depth > 0 {
+		t.L, t.R = c11mktree(path+".L", depth-1), c11mktree(path+".R", depth-1)
+	}
+	return t
 }
 
 // two struct types that have a field of the same name at different positions
